@@ -1433,6 +1433,10 @@ class Encoder:
         callee = self.resolver(func, 0, closure=m.group(1))
         if callee is None:
             return None
+        if re.search(r"(^|::)Error$", strip_generics(callee.ret or "")):
+            # error-building closures (map_err / ok_or_else bodies): opaque error token, like the constructors
+            self.opaque_calls["closure -> Error"] = self.opaque_calls.get("closure -> Error", 0) + 1
+            return ("value", VOpaque("error"))
         env = self.operand(state, args[0])
         tup = self.operand(state, args[1])
         if not isinstance(tup, VAgg):
@@ -1734,10 +1738,23 @@ class Encoder:
         argv = [self.operand(state, x) for x in args]
         return self.inline_fn(state, callee, sg, argv, pc)
 
+    def snapshot_refs(self, state, v, depth=0):
+        """references into the caller's frame (also inside closure environments / tuples) become
+        immutable snapshots before the value crosses into an inlined callee"""
+        if isinstance(v, VRef):
+            return VBoxVal(self.snapshot_refs(state, self.read_path(state, v.local, list(v.proj)), depth + 1))
+        if depth > 8:
+            return v
+        if isinstance(v, VAgg) and any(contains_ref(x) for x in v.f.values()):
+            return VAgg({k: self.snapshot_refs(state, x, depth + 1) for k, x in v.f.items()}, v.tag)
+        if isinstance(v, VEnum) and contains_ref(v):
+            return VEnum(v.discr, {n: {k: self.snapshot_refs(state, x, depth + 1) for k, x in pl.items()} for n, pl in v.variants.items()}, v.ty, v.dmap)
+        return v
+
     def inline_fn(self, state, callee, sg, argv, pc):
         if self.call_depth >= 12 or callee.name in self.call_stack:
             raise Refuse("call depth/recursion at %s" % sg)
-        argv = [VBoxVal(self.read_path(state, v.local, list(v.proj))) if isinstance(v, VRef) else v for v in argv]
+        argv = [self.snapshot_refs(state, v) for v in argv]
         self.inlined_calls[sg] = self.inlined_calls.get(sg, 0) + 1
         saved = (self.fn, self.ret_cond, self.ret_val)
         self.call_depth += 1
@@ -1843,6 +1860,8 @@ class Encoder:
         fn = self.fn
         order = []
         seen = {}
+        backedges = set()
+        self._backedges = backedges
 
         def visit(b0):
             stack = [(b0, iter(self.successors(fn.blocks[b0].term)))]
@@ -1855,7 +1874,10 @@ class Encoder:
                         raise Refuse("edge to missing block " + s)
                     st = seen.get(s, 0)
                     if st == 1:
-                        raise Refuse("loop (back-edge %s -> %s)" % (b, s))
+                        # a loop: the back-edge is not followed; taking it must be infeasible (obligation
+                        # added when the edge is reached with a satisfiable condition)
+                        backedges.add((b, s))
+                        continue
                     if st == 0:
                         seen[s] = 1
                         stack.append((s, iter(self.successors(fn.blocks[s].term))))
@@ -1883,6 +1905,7 @@ class Encoder:
         """symbolically execute `fn` on argument values under path condition pc0;
         returns (return condition, merged return value) or (None, None) if it never returns"""
         order = self.topo()
+        backedges = self._backedges
         if len(argv) != len(fn.args):
             raise Refuse("arity mismatch calling %s" % fn.name)
         init = {loc: v for (loc, _), v in zip(fn.args, argv)}
@@ -1911,6 +1934,7 @@ class Encoder:
                     cur_st = st
                     pc = self.statement(state, st, pc, pfx + b)
                 cur_st = blk.term
+                self._edge_ctx = (b, backedges)
                 self.terminator(state, blk.term, pc, pfx + b, incoming, rets)
             except Refuse as e:
                 msg = "%s in %s at %s: %r" % (e, self.fn.name, b, cur_st)
@@ -2001,8 +2025,14 @@ class Encoder:
     def terminator(self, state, term, pc, bname, incoming, rets):
         k = term[0]
 
+        raw_b, backedges = getattr(self, "_edge_ctx", (None, set()))
+
         def go(target, cond):
             if z3.is_false(cond):
+                return
+            if (raw_b, target) in backedges:
+                self.obligations.append(Obligation("unsupported", "unsupported construct must be unreachable: loop back-edge %s -> %s in %s" % (raw_b, target, self.fn.name), cond, bname))
+                self.notes.append("loop back-edge on a path required to be infeasible")
                 return
             if incoming.get(target, 0) is None:
                 raise Refuse("internal: edge to processed block")
